@@ -8,6 +8,13 @@ Four monitors on generated models (all constraint kinds, tendons with wraps/pull
      difference of ten_length / actuator_length along qvel (two step sizes; disagreement = wrap switch = not judged);
  (d) metamorphic: the same model and states with jacobian=dense and jacobian=sparse give the same rows, a qacc that is
      optimal for the same problem (C06 cost certificate, evaluated across the two runs) and the same next state.
+
+A second case family (mon/props/_xtree.py, every fourth case) drives all four monitors on hand-written models in which the
+objects of a spatial tendon path live in DIFFERENT kinematic trees: wrapping spheres / cylinders (outside sidesite, inside
+sidesite, none) on bodies below free / ball / hinge / slide joints of one tree, the sites before and after them on bodies of
+other trees or of the world, pulleys, tendon limits / friction / equalities / actuators, and states near qpos0 in which the
+tendons really wrap (MuJoCo's wrap_obj is the witness).  For every tendon, ten_J.qvel is additionally compared with the
+central difference of mujoco_warp's OWN ten_length (extra worlds at qpos +- eps.qvel, position stage only).
 """
 
 import mujoco
@@ -23,12 +30,21 @@ RULE = (
   "case=(profile,seed): generated tree (free/ball/hinge/slide, several joints per body, welded and mocap bodies) with "
   "connect/weld/joint/tendon equalities, friction loss, limits, contacts condim 1/3/4/6, fixed+spatial tendons (sphere/cylinder "
   "wraps, pulleys), actuators with joint/jointinparent/tendon/site(+refsite)/slidercrank/body transmissions; 3 worlds with "
-  "different random qpos/qvel. Non-trivial: nv>=3, |qvel|>0 and >=1 constraint row; distinct by hash(xml, qpos, qvel)."
+  "different random qpos/qvel. Every fourth case instead: 2-4 separate kinematic trees (root free/ball/hinge/slide/hinge+slide, "
+  "children ball/hinge/slide, random body frames, off-centre masses), wrapping spheres/cylinders on tree bodies and the world, "
+  "1-3 spatial tendons whose sites are placed (on random bodies of any tree or the world) so that the segment crosses the geom "
+  "at qpos0, sidesites outside/inside/none, pulleys, tendon limits active at qpos0, friction, tendon equalities and actuators; "
+  "two worlds near qpos0 (wrapping) and one anywhere. Non-trivial: nv>=3, |qvel|>0 and >=1 constraint row; distinct by "
+  "hash(xml, qpos, qvel)."
 )
 ASSUMPTIONS = [
   "MuJoCo 3.13 (float64) provides mj_jac, ten_J, actuator_moment and the positions/lengths that are finite-differenced",
   "finite differences: central, h=1e-6 and 3e-6 along qvel through mj_integratePos; the two must agree to 1e-6 relative or "
   "the quantity is not judged (tendon wrap switching)",
+  "own-length differences: float32 ten_length at qpos +- eps.qvel/max|qvel|, eps=4e-3 and 8e-3; judged to 1e-3.max|qvel|.max(1,L) "
+  "when the two step sizes agree to that amount",
+  "inside wraps (sidesite inside the geom): MuJoCo's Newton solver may return its fallback point, where MuJoCo's own ten_J is not "
+  "the derivative of its length; such tendons are compared with MuJoCo's ten_length / wrap points / ten_J only",
   "dense/sparse equivalence of qacc is judged through the cost certificate of C06 (cost of the sparse run's qacc in the dense "
   "run's problem), elementwise only on rows and on the state after one step (first-divergence thresholds 1e-4 / 1e-2)",
 ]
@@ -133,6 +149,67 @@ def fd_along(mjm, st, v, h, points_local):
     dR = r1[k] @ r0[k].T
     om.append(np.array([dR[2, 1] - dR[1, 2], dR[0, 2] - dR[2, 0], dR[1, 0] - dR[0, 1]]) / (4 * h))
   return dp, np.array(om).reshape(-1, 3), (t1 - t0) / (2 * h), (a1 - a0) / (2 * h)
+
+
+OWN_EPS = (4e-3, 8e-3)  # float32 lengths: round-off/(2 eps) ~ 1e-4 L, truncation ~ eps^2 L'''/6
+
+
+SIG_INSIDE = "ten_length:inside_wrap:float32_newton_fallback_point"
+
+
+def own_length_fd(rec, mjw, mjm, m, states, tenJ, caps, inside_w):
+  """ten_J.qvel against the central difference of mujoco_warp's OWN (float32) ten_length along qvel.
+
+  One extra Data with 4 worlds per state (qpos moved by +-eps along qvel/max|qvel| for two step sizes), position stage only.
+  The two step sizes must agree (otherwise a wrap switches on the way / curvature too large: not judged).
+  """
+  plan, fd_states = [], []
+  for w, st in enumerate(states):
+    v = np.asarray(st["qvel"], dtype=np.float64)
+    vn = float(np.abs(v).max())
+    if not vn > 0:
+      continue
+    for eps in OWN_EPS:
+      for sgn in (+1, -1):
+        q = np.asarray(st["qpos"], dtype=np.float64).copy()
+        mujoco.mj_integratePos(mjm, q, v / vn, sgn * eps)
+        s2 = dict(st)
+        s2["qpos"] = q.astype(np.float32)
+        fd_states.append(s2)
+    plan.append((w, v, vn))
+  if not plan:
+    return
+  dfd = mw.make_data(mjm, m, fd_states, **caps)
+  mjw.kinematics(m, dfd)
+  mjw.com_pos(m, dfd)
+  mjw.tendon(m, dfd)
+  L = np.asarray(mw.npy(dfd.ten_length), dtype=np.float64)
+  spatial = [int(mjm.tendon_num[t]) > 0 and int(mjm.wrap_type[mjm.tendon_adr[t]]) != int(mujoco.mjtWrap.mjWRAP_JOINT) for t in range(mjm.ntendon)]
+  for k, (w, v, vn) in enumerate(plan):
+    la = (L[4 * k] - L[4 * k + 1]) / (2 * OWN_EPS[0]) * vn
+    lb = (L[4 * k + 2] - L[4 * k + 3]) / (2 * OWN_EPS[1]) * vn
+    tj = dense_tenJ(mjm, tenJ[w])
+    pred = tj @ v
+    for t in range(mjm.ntendon):
+      rec.check()
+      if t in inside_w[w]:
+        rec.count("fd_not_judged(inside-wrap tendon)")
+        continue
+      if not (np.all(np.isfinite(L[4 * k : 4 * k + 4, t])) and np.isfinite(pred[t])):
+        rec.viol("ten_J:own_length_finite_difference:nonfinite", f"tendon {t}: ten_length / ten_J not finite world {w}")
+        continue
+      tol = 1e-3 * vn * max(1.0, float(np.abs(L[4 * k : 4 * k + 4, t]).max()))
+      if abs(la[t] - lb[t]) > tol:
+        rec.count("own_fd_unstable(not judged)")
+        continue
+      bound = tol + 16 * E.EPS32 * float(np.abs(tj[t]) @ np.abs(v)) + 10 * abs(la[t] - lb[t])
+      r = abs(pred[t] - la[t]) / bound
+      rec.worst("fd:ten_J.qvel(own ten_length)", r)
+      rec.cover("tendons_own_fd_judged:" + ("spatial" if spatial[t] else "fixed"), 1)
+      if r > cmp.VIOL_FACTOR:
+        rec.viol("ten_J:finite_difference_of_own_ten_length", f"tendon {t}: ten_J.qvel={pred[t]:.7g} but the central difference of mujoco_warp's own ten_length along qvel is {la[t]:.7g} (second step size: {lb[t]:.7g}) world {w}")
+      elif r > 1:
+        rec.inconcl("ten_J vs finite difference of own ten_length in grey zone")
 
 
 def run_case(case):
@@ -246,6 +323,9 @@ def run_case(case):
         per_world_points[w].append((b, pts[w].astype(np.float64)))
         got[w].append((jpn[w].astype(np.float64), jrn[w].astype(np.float64)))
   tenJ = mw.npy(d.ten_J)
+  tlen = mw.npy(d.ten_length)
+  twn, twa, wxp = mw.npy(d.ten_wrapnum), mw.npy(d.ten_wrapadr), mw.npy(d.wrap_xpos)
+  inside_w = [set() for _ in range(nworld)]
   mom = mw.npy(d.actuator_moment)
   mrn, mra, mci = mw.npy(d.moment_rownnz), mw.npy(d.moment_rowadr), mw.npy(d.moment_colind)
   for w in range(nworld):
@@ -288,16 +368,36 @@ def run_case(case):
           elif r > 1:
             rec.inconcl(f"{nm} vs finite difference in grey zone")
       # (c) tendon / actuator Jacobians
+      cls = X.classify(mjm, mjd) if mjm.ntendon else []
+      # tendons with an inside wrap (sidesite inside the geom): MuJoCo's Newton solver may fall back to the "average" point,
+      # where its own ten_J is not the derivative of its own length -> compared with MuJoCo only, never with differences
+      inside_t = {c["tendon"] for c in cls if c["inside"]}
+      inside_w[w] = inside_t
+      skip_t = set()
       if mjm.ntendon:
         tj = dense_tenJ(mjm, tenJ[w])
-        verdict = cmp.judge(rec, "ten_J", tj, ref["ten_J"], A_JAC, noise["ten_J"], ctx=f"world {w}")
+        for t in sorted(inside_t):
+          lg, lr = float(tlen[w][t]), float(mjd.ten_length[t])
+          rec.check()
+          rec.cover("inside_wrap_tendon_lengths_compared", 1)
+          a, n = int(mjd.ten_wrapadr[t]), int(mjd.ten_wrapnum[t])
+          dx = 0.0
+          if int(twn[w][t]) == n and int(twa[w][t]) == a:
+            dx = float(np.abs(np.asarray(wxp[w], dtype=np.float64).reshape(-1, 3)[a : a + n] - np.asarray(mjd.wrap_xpos).reshape(-1, 3)[a : a + n]).max()) if n else 0.0
+          if not (abs(lg - lr) <= 1e-4 * max(1.0, abs(lr)) and dx <= 1e-3):
+            skip_t.add(t)
+            rec.viol(SIG_INSIDE, f"tendon {t} (inside wrap): ten_length={lg:.7g} but MuJoCo {lr:.7g}, wrap points differ by {dx:.3g}: the float32 inside-wrap solver returned its fallback point; ten_J of this tendon is not compared, world {w}")
+        keep_t = np.array([t not in skip_t for t in range(mjm.ntendon)])
+        verdict = cmp.judge(rec, "ten_J", tj[keep_t], ref["ten_J"][keep_t], A_JAC, noise["ten_J"], ctx=f"world {w}") if keep_t.any() else "incon"
         if verdict != "incon":
           # which wrapping configurations this comparison actually observed (MuJoCo's wrap_obj at this state)
-          for c in X.classify(mjm, mjd):
+          for c in cls:
+            if c["tendon"] in skip_t:
+              continue
             if not c["wrapped"]:
               rec.cover("wrap_geom_not_wrapping_in_state", 1)
               continue
-            rec.cover(f"wrapped:{c['type']}:{'sidesite' if c['sidesite'] else 'no_sidesite'}", 1)
+            rec.cover(f"wrapped:{c['type']}:{'inside_sidesite' if c['inside'] else 'sidesite' if c['sidesite'] else 'no_sidesite'}", 1)
             where = "world_body" if c["geom_on_world"] else ("body_with_rotational_dofs" if c["rot"] else "body_without_rotational_dofs")
             rec.cover("wrapped_geom_on:" + where, 1)
             if c["rot"]:
@@ -309,6 +409,9 @@ def run_case(case):
         for t in range(mjm.ntendon):
           scale = max(1.0, abs(f1[2][t]))
           rec.check()
+          if t in inside_t:
+            rec.count("fd_not_judged(inside-wrap tendon)")
+            continue
           if abs(f1[2][t] - f2[2][t]) > 1e-5 * scale:
             rec.count("fd_unstable(not judged)")
             continue
@@ -323,7 +426,8 @@ def run_case(case):
       if mjm.nu:
         am = dense_moment(mjm.nu, mjm.nv, mom[w], mrn[w], mra[w], mci[w])
         # body (adhesion) transmissions take their moment from the contacts of this step: not a position-stage quantity
-        keep = np.array([int(t) != int(mujoco.mjtTrn.mjTRN_BODY) for t in mjm.actuator_trntype])
+        on_tendon = [int(mjm.actuator_trnid[i, 0]) if int(mjm.actuator_trntype[i]) == int(mujoco.mjtTrn.mjTRN_TENDON) else -1 for i in range(mjm.nu)]
+        keep = np.array([int(t) != int(mujoco.mjtTrn.mjTRN_BODY) and on_tendon[i] not in skip_t for i, t in enumerate(mjm.actuator_trntype)])
         if keep.any():
           cmp.judge(rec, "actuator_moment", am[keep], ref["actuator_moment"][keep], A_JAC, noise["actuator_moment"], ctx=f"world {w}")
         pred = am @ v
@@ -339,6 +443,9 @@ def run_case(case):
             continue
           scale = max(1.0, abs(f1[3][i]))
           rec.check()
+          if on_tendon[i] in inside_t:
+            rec.count("fd_not_judged(inside-wrap tendon)")
+            continue
           if abs(f1[3][i] - f2[3][i]) > 1e-5 * scale:
             rec.count("fd_unstable(not judged)")
             continue
@@ -350,6 +457,10 @@ def run_case(case):
             rec.viol(f"actuator_moment:finite_difference:trn{int(mjm.actuator_trntype[i])}", f"actuator {i}: moment.qvel={pred[i]:.7g} but d(actuator_length)/dt along qvel = {f1[3][i]:.7g} world {w}")
           elif r > 1:
             rec.inconcl("actuator_moment vs finite difference in grey zone")
+  if mjm.ntendon:
+    own_length_fd(rec, mjw, mjm, m, states, tenJ, caps, inside_w)
+  if xtree:
+    rec.cover("xtree_cases", 1)
   # ------------------------------------------------------------------ (d) dense vs sparse
   if case["metamorphic"]:
     other = mujoco.mjtJacobian.mjJAC_SPARSE if not m.is_sparse else mujoco.mjtJacobian.mjJAC_DENSE
@@ -465,7 +576,7 @@ def run_case(case):
     rec.cover("features", f)
   if mjm.nv >= 3 and nrows_total >= 1:
     rec.nontrivial(xml, *[s["qpos"] for s in states], *[s["qvel"] for s in states])
-  rec.sample = {"model": f"generated seed {case['seed']} big={case['big']}", "nv": mjm.nv, "nbody": mjm.nbody, "ntendon": mjm.ntendon, "nu": mjm.nu, "sparse": bool(m.is_sparse), "nefc": [int(x) for x in mw.npy(d.nefc)], "metamorphic": case["metamorphic"]}
+  rec.sample = {"model": f"{'cross-tree wrapping family' if xtree else 'generated'} seed {case['seed']} big={case['big']}", "nv": mjm.nv, "nbody": mjm.nbody, "ntendon": mjm.ntendon, "nu": mjm.nu, "sparse": bool(m.is_sparse), "nefc": [int(x) for x in mw.npy(d.nefc)], "metamorphic": case["metamorphic"]}
   return rec.result()
 
 
@@ -488,6 +599,24 @@ def requirements(agg, tier):
   for f in ["joint:free", "joint:ball", "joint:hinge", "joint:slide", "tendon:fixed", "tendon:spatial", "wrap:sphere", "wrap:cylinder", "trn:refsite"]:
     if f not in feats:
       unmet.append(f"feature never generated: {f}")
+  # cross-tree wrapping family: the tendon Jacobian of a geom that really wraps, sits on a body with rotational dofs and has
+  # its neighbouring sites in another kinematic tree must have been compared (both halves of the segment, both geom types,
+  # with and without sidesite, inside a pulley-scaled branch)
+  for k, v in {
+    "wrapped_geom_on_rotating_body:next_site_in_other_tree": 30,
+    "wrapped_geom_on_rotating_body:prev_site_in_other_tree": 30,
+    "wrapped_geom_on_rotating_body:next_site_in_same_tree": 3,
+    "wrapped:sphere:sidesite": 10,
+    "wrapped:sphere:no_sidesite": 10,
+    "wrapped:cylinder:sidesite": 10,
+    "wrapped:cylinder:no_sidesite": 10,
+    "wrapped_geom_in_pulley_scaled_branch": 1,
+    "inside_wrap_tendon_lengths_compared": 3,
+    "tendons_own_fd_judged:spatial": 50,
+    "tendons_own_fd_judged:fixed": 10,
+  }.items():
+    if cov.get(k, 0) < (v if q else 5 * v):
+      unmet.append(f"{k}: {cov.get(k, 0)} < {v if q else 5 * v}")
   if agg["distinct"] < 30:
     unmet.append("fewer than 30 distinct non-trivial cases")
   return unmet
